@@ -470,6 +470,11 @@ class Analyzer:
                                     rterms |= args[i]
                             if cl_args:
                                 pass
+                        elif (not cl_args and any(rx.match(name) for rx in _HM) and len(t["args"]) == 2 and isinstance(t["args"][1], dict)
+                              and t["args"][1].get("fn") and any(rx.match(mir.strip_generics(t["args"][1]["fn"])) and idxs == [0] for rx, idxs in _TR)):
+                            # `.map(String::as_str)`, `.map(Clone::clone)`: a function item that is itself transparent, applied
+                            # to every element -- the result carries all access paths of the receiver
+                            rterms |= args[0]
                         elif not (cl_args and any(rx.match(name) for rx in _HM)):
                             reps = []
                             for a in args:
